@@ -339,7 +339,7 @@ def finish(mod, total: Result, tier, seed, wall, write_evidence=True):
         else:
             new_violations.append(v)
     # inconclusive conditions
-    floor = getattr(mod, "MIN_NONTRIVIAL", {}).get(tier, 2)
+    floor = getattr(mod, "MIN_NONTRIVIAL", {}).get(tier, 2) if write_evidence else 0      # (a replay is one case: no floor)
     if len(total.nontrivial) < floor:
         total.inconclusive.append(
             "only %d distinct non-trivial cases observed (floor %d)" % (len(total.nontrivial), floor))
